@@ -667,6 +667,8 @@ func (w *World) appOp(rc *Recorder, op string) error {
 	switch op {
 	case "W":
 		return w.appWrite(rc)
+	case "W1": // a one-page transaction on a page no other operation writes: exactly one WAL frame that stays the latest version of its page
+		return w.exec("UPDATE onef SET n = n + 1")
 	case "U":
 		return w.exec("UPDATE t SET v=randomblob(length(v)) WHERE id % 3 = ?", w.rng.Intn(3))
 	case "D":
@@ -1057,7 +1059,7 @@ func (w *World) observeSync(rc *Recorder, f func() error) {
 // ---- history generation ----------------------------------------------------------------------------------------
 
 func isAppOp(op string) bool {
-	return strings.HasPrefix(op, "ACK") || op == "W" || op == "U" || op == "D" || op == "V" || op == "DDL" || op == "RB" || op == "AOC" || op == "LR+" || op == "LR-" || op == "WT+" || op == "WT-" || op == "WTR"
+	return strings.HasPrefix(op, "ACK") || op == "W" || op == "W1" || op == "U" || op == "D" || op == "V" || op == "DDL" || op == "RB" || op == "AOC" || op == "LR+" || op == "LR-" || op == "WT+" || op == "WT-" || op == "WTR"
 }
 
 var appOps = []string{"WT+", "WT-", "WTR", "W", "W", "W", "W", "U", "U", "D", "V", "DDL", "RB", "ACK-PASSIVE", "ACK-FULL", "ACK-RESTART", "ACK-TRUNCATE", "AOC", "LR+", "LR-"}
@@ -1361,6 +1363,22 @@ var snapAfterReopenScripts = []string{
 	"OPEN S W SW REOPEN OPEN S W W SNAP CMP ORACLE W SW ORACLE",
 }
 
+// snapDuringRestartScripts: litestream is attached to a WAL that was completely checkpointed when it took
+// its read lock (mark 0: nothing stops a writer from restarting the WAL); while a snapshot is being read
+// (after its page map was built) a ONE-frame commit restarts the WAL: the leading frame of the
+// snapshot's range is overwritten, its LAST frame stays intact. The snapshot must fail or hold exactly
+// the state of its position (482a715 re-reads the header; seed C02f re-reads only the last frame).
+var snapDuringRestartScripts = func() (l []string) {
+	for k := 1; k <= 6; k++ {
+		// the application checkpoints, starts a new WAL generation whose FIRST frame is the only version of its
+		// page (W1), writes more, checkpoints again; litestream then attaches at read mark 0
+		l = append(l, fmt.Sprintf("OPEN S W W SW REOPEN ACK-PASSIVE W1 W ACK-PASSIVE OPEN S SW INJ1=%d SNAP ORACLE W SW ORACLE", k))
+	}
+	l = append(l, "OPEN S W W W SW REOPEN ACK-FULL W1 W W ACK-FULL OPEN S SW INJ1=2 SNAP ORACLE W SW ORACLE",
+		"OPEN S W W W SW REOPEN ACK-FULL W1 W W ACK-FULL OPEN S SW INJ1=3 SNAP ORACLE W SW ORACLE")
+	return l
+}()
+
 // killSentinel is the panic value of a simulated process death (KILLP=<trace point>)
 type killSentinel struct{ pt string }
 
@@ -1392,7 +1410,7 @@ func runScriptAs(rc *Recorder, dir string, rng *rand.Rand, script, cfgs, scenari
 	defer func() { w.closeReader(); w.closeWT(false); w.closeWTConn(); w.app.Close() }()
 	w.scenario = scenario
 	w.scripted = true
-	if strings.Contains(script, "INJP=") || strings.Contains(script, "INJW=") || strings.Contains(script, "INJT=") {
+	if strings.Contains(script, "INJP=") || strings.Contains(script, "INJW=") || strings.Contains(script, "INJT=") || strings.Contains(script, " W1") {
 		// a second one-page table, so that two injected one-frame commits touch different pages
 		if _, err := w.app.Exec("CREATE TABLE onef(id INTEGER PRIMARY KEY, n INTEGER)"); err != nil {
 			return err
@@ -1723,7 +1741,10 @@ func main() {
 				err = runC02ShrinkSnapshot(rc, dir, rng)
 			}
 		case "c02":
-			if i%6 == 3 && (i/6)%2 == 1 {
+			if i >= 48 && i < 48+len(snapDuringRestartScripts) {
+				// histories 48.. of every run are the directed snapshot-during-restart scripts (fixed indexes: replayable with -only)
+				err = runScriptAs(rc, dir, rng, snapDuringRestartScripts[i-48], "4096,0,1000,0,0,0", "snapshot-during-restart")
+			} else if i%6 == 3 && (i/6)%2 == 1 {
 				sc := snapAfterFailedCkptScripts[(i/12)%len(snapAfterFailedCkptScripts)]
 				err = runScriptAs(rc, dir, rng, sc, "4096,0,1000,0,0,0", "snapshot-after-failed-checkpoint")
 			} else if i%6 == 4 && (i/6)%2 == 1 {
